@@ -21,6 +21,15 @@ from harness.striplog import strip_logging
 PROPS = {"C06"}
 
 
+from harness.loop_base import LoopCheck  # noqa: E402
+
+
+class _Loop06(LoopCheck):
+    pid = "C06"
+    props = {"C06"}
+    flows = ("plain",)
+
+
 class NullPop:
     """Population stand-in for the fixed-schedule harness: the ladder does not
     depend on the population when adaptive=False."""
@@ -59,7 +68,7 @@ class _Stop(Exception):
 
 class C06(Check):
     pid = "C06"
-    required_labels = ["c06/strictly_increasing", "c06/at_most_one", "c06/min_step_honoured", "c06/fixed_exact_iterations", "c06/fixed_ends_at_one"]
+    required_labels = ["c06/strictly_increasing", "c06/at_most_one", "c06/min_step_honoured", "c06/fixed_exact_iterations", "c06/fixed_ends_at_one", "c06/ladder_increasing", "c06/ends_at_one"]
     stubs = [
         "step harness: user functions / flow unused; population symbolic; target efficiency symbolic (scalar or two-point ramp) or set through the public setter",
         "fixed-schedule harness: logging-stripped copy of SMCSampler.sample compiled from current source with SMCSamples / effective_sample_size bound to null stand-ins (the ladder does not depend on the population when adaptive=False); n_steps is a symbolic bit-vector converted with fpUnsignedToFP",
@@ -81,17 +90,25 @@ class C06(Check):
         blocks = [(a, a + 3) for a in range(1, K, 4)]
         for lo, hi in blocks:
             out.append({"name": f"fixed-n{lo}-{hi}", "kind": "fixed", "lo": lo, "hi": hi, "timeout_ms": 600000})
+        for c in _Loop06().configs(tier):
+            c["kind"] = "loop"
+            c["name"] = "loop-" + c["name"]
+            out.append(c)
         return out
 
     def ctx_for(self, cfg, seed):
         if cfg["kind"] == "fixed":
             c = sx.Ctx(self.pid, seed=seed, timeout_ms=cfg.get("timeout_ms", 600000), sort="F", fp_bits=64)
             return c
+        if cfg["kind"] == "loop":
+            return _Loop06().ctx_for(cfg, seed)
         return sx.Ctx(self.pid, D=cfg.get("D", 1), seed=seed, timeout_ms=cfg.get("timeout_ms", 60000))
 
     def harness(self, cfg):
         if cfg["kind"] == "fixed":
             return self.h_fixed(cfg)
+        if cfg["kind"] == "loop":
+            return _Loop06().harness(cfg)
         return beta_step.harness(cfg, PROPS)
 
     # ------------------------------------------------------------------
@@ -166,11 +183,15 @@ class C06(Check):
 
     # ------------------------------------------------------------------
     def to_cex(self, fl):
+        if fl["cfg"]["kind"] == "loop":
+            return _Loop06().to_cex(fl)
         if fl["cfg"]["kind"] == "fixed":
             return {"cfg": fl["cfg"], "label": fl["label"], "n_steps": int(fl["env"].get("n_steps") or 0), "detail": fl.get("detail")}
         return beta_step.to_cex(fl)
 
     def replay(self, cex):
+        if cex["cfg"]["kind"] == "loop":
+            return _Loop06().replay(cex)
         if cex["cfg"]["kind"] == "fixed":
             ok, msg, info = replay_fixed(cex["n_steps"])
             cex["_info"] = info
@@ -180,6 +201,8 @@ class C06(Check):
         return ok, msg
 
     def finding_of(self, cex):
+        if cex["cfg"]["kind"] == "loop":
+            return None
         if cex["cfg"]["kind"] == "fixed":
             info = cex.get("_info") or {}
             return "C06-D3" if info.get("iterations") == info.get("n", -9) + 1 and info.get("final") == 1.0 else None
